@@ -2,6 +2,7 @@
 from __future__ import annotations
 
 import ast
+import re
 from typing import List, Optional, Tuple
 
 from . import dispatch as D
@@ -145,7 +146,7 @@ def t_r1(p: Project, rep: Report):
 
 
 def t_r2(p: Project, rep: Report):
-    rep.rule("T-R2", "every None handler (convert and unconvert, incl. SubAggregate) returns self.enforce_required(<its argument>); the empty-string paths of the String/Integer/OneOf readers do too (no handler returns a bare None)")
+    rep.rule("T-R2", "every None handler (convert and unconvert, incl. SubAggregate) returns self.enforce_required(<its argument>) on every path; the empty-text paths of the String/Integer/OneOf readers go through enforce_required too (no path returns a bare None)")
     scal, types = scalar_types(p)
     n = 0
     for name, ci in list(scal.items()) + [("SubAggregate", types["SubAggregate"]), ("ListAggregate", types["ListAggregate"])]:
@@ -157,35 +158,29 @@ def t_r2(p: Project, rep: Report):
             if h is None:
                 continue
             n += 1
-            flow = Flow(h.fn)
             vp = h.value_param()
-            rets = flow.return_nodes()
-            falls = [x for x in flow.cfg.return_nodes() if x.kind != "return"]
-            ok = bool(rets) and not falls
-            why = "falls off the end (returns None without the required check)" if falls else ""
-            for rn in rets:
-                v = rn.stmt.value
-                good = v is not None and self_call_name(v) == "enforce_required" and len(v.args) == 1 and isinstance(v.args[0], ast.Name) and v.args[0].id == vp
-                if not good:
-                    ok = False
-                    why = f"returns {ast.unparse(v) if v else None} instead of self.enforce_required({vp})"
-            rep.check("T-R2", f"{name}.{famname}[None]:{h.qualname}", ok, why, tloc(p, h.fn))
+            rps, _ = h.return_paths()
+            ok, why = bool(rps), "the handler never returns"
+            for pth, rtxt, sc in rps:
+                if rtxt not in (f"self.enforce_required({vp})", "self.enforce_required(None)"):
+                    ok, why = False, f"a path returns {rtxt} instead of self.enforce_required({vp}): None is passed through even when the element is required"
+            rep.check("T-R2", f"{name}.{famname}[None]:{h.qualname}", ok, why if not ok else "", tloc(p, h.fn))
     rep.floor("T-R2", n, 16, "None handlers")
-    # bare None returns in readers
     for name in ("String", "NagString", "OneOf", "Integer"):
         ci = scal[name]
         fam = D.family(ci, "convert")
         h = fam.get("str") if fam else None
         if h is None:
             continue
-        flow = Flow(h.fn)
-        bad = [rn for rn in flow.return_nodes() if rn.stmt.value is None or (isinstance(rn.stmt.value, ast.Constant) and rn.stmt.value.value is None)]
-        falls = [x for x in flow.cfg.return_nodes() if x.kind != "return"]
-        rep.check("T-R2", f"{name}.convert[str]:no-bare-None", not bad and not falls, "an empty value is returned as None without enforce_required" if (bad or falls) else "", tloc(p, h.fn))
+        rps, _ = h.return_paths()
+        bad = [rtxt for pth, rtxt, sc in rps if rtxt == "None"]
+        rep.check("T-R2", f"{name}.convert[str]:no-bare-None", not bad, "an empty value is returned as None without enforce_required" if bad else "", tloc(p, h.fn))
 
 
 def t_r3(p: Project, rep: Report):
-    rep.rule("T-R3", "every non-None return of String/NagString/Integer convert and unconvert comes out of enforce_length (or is enforce_required(None) for the empty text); OneOf convert/unconvert returns are dominated by the `not in self.valid` raise; ListElement delegates to self.converter")
+    rep.rule("T-R3", "on every returning path of the String/NagString/Integer convert and unconvert handlers the returned value comes out of enforce_length (or is enforce_required(None) for the empty text); every OneOf convert/unconvert return is either None (through enforce_required) or taken on a path whose conditions imply `value in self.valid`; ListElement delegates to self.converter")
+    from . import paths as PT
+
     scal, types = scalar_types(p)
     n = 0
     for name in ("String", "NagString", "Integer"):
@@ -195,19 +190,11 @@ def t_r3(p: Project, rep: Report):
             for key, h in fam.table.items():
                 if key == "None" or h.always_raises():
                     continue
-                flow = Flow(h.fn)
-                for i, rn in enumerate(flow.return_nodes()):
+                rps, _ = h.return_paths()
+                for i, (pth, rtxt, sc) in enumerate(rps):
                     n += 1
-                    v = rn.stmt.value
-                    if v is not None and self_call_name(v) == "enforce_required" and len(v.args) == 1 and isinstance(v.args[0], ast.Constant) and v.args[0].value is None:
-                        rep.check("T-R3", f"{name}.{famname}[{key}]:return#{i}", True, "enforce_required(None)", tloc(p, rn.stmt))
-                        continue
-                    ok, why = passes_through(ci, h.cls, h.fn, v, rn, flow, {"enforce_length"})
-                    rep.check("T-R3", f"{name}.{famname}[{key}]:return#{i}", ok, f"{h.qualname}: {why}" if not ok else why, tloc(p, rn.stmt))
-                falls = [x for x in flow.cfg.return_nodes() if x.kind != "return"]
-                if falls:
-                    rep.check("T-R3", f"{name}.{famname}[{key}]:falls-off", False, f"{h.qualname} can fall off the end returning None", tloc(p, h.fn))
-    # OneOf membership
+                    ok = "self.enforce_length(" in rtxt or rtxt == "self.enforce_required(None)"
+                    rep.check("T-R3", f"{name}.{famname}[{key}]:return#{i}", ok, f"{h.qualname}: a path returns {rtxt[:80]}, which did not pass enforce_length" if not ok else "", tloc(p, h.fn))
     ci = scal["OneOf"]
     for famname in ("convert", "unconvert"):
         fam = D.family(ci, famname)
@@ -215,9 +202,20 @@ def t_r3(p: Project, rep: Report):
             if key == "None" or h.always_raises():
                 continue
             n += 1
-            ok, why = _membership_guarded(ci, h.cls, h.fn, depth=2)
-            rep.check("T-R3", f"OneOf.{famname}[{key}]:membership", ok, f"{h.qualname}: {why}" if not ok else why, tloc(p, h.fn))
-    # ListElement
+            rps, pths = h.return_paths()
+            ok, why = True, ""
+            for pth, rtxt, sc in rps:
+                if rtxt in ("None", "self.enforce_required(None)") or sc.get(f"{rtxt} is None") is True:
+                    continue
+                members = sorted({a for c, _w in pth.conds for a in c.atoms() if a.endswith(" in self.valid")})
+                if not members:
+                    ok, why = False, f"a path returns {rtxt[:60]} without any `in self.valid` test"
+                    continue
+                goal = PT.any_of(*[PT.any_of(PT.atom(m), PT.atom(m[: -len(' in self.valid')] + " is None")) for m in members])
+                imp = PT.implies(pth.conds, goal)
+                if imp is False:
+                    ok, why = False, f"a path returns {rtxt[:60]} although its conditions do not establish membership in self.valid"
+            rep.check("T-R3", f"OneOf.{famname}[{key}]:membership", ok, f"{h.qualname}: {why}" if not ok else "", tloc(p, h.fn))
     le = types["ListElement"]
     for famname in ("convert", "unconvert"):
         fam = D.family(le, famname)
@@ -225,42 +223,11 @@ def t_r3(p: Project, rep: Report):
         n += 1
         ok = False
         if h is not None:
-            rets = [x for x in own_nodes(h.fn) if isinstance(x, ast.Return)]
+            rps, _ = h.return_paths()
             vp = h.value_param()
-            ok = bool(rets) and all(r.value is not None and text(r.value) == f"self.converter.{famname}({vp})" for r in rets)
+            ok = bool(rps) and all(rtxt == f"self.converter.{famname}({vp})" for _p, rtxt, _s in rps)
         rep.check("T-R3", f"ListElement.{famname}:delegates", ok, f"ListElement.{famname} does not return self.converter.{famname}(value)" if not ok else "", tloc(p, h.fn if h else le.node))
     rep.floor("T-R3", n, 14, "returns/handlers")
-
-
-def _membership_guarded(ci, definer, fn, depth) -> Tuple[bool, str]:
-    """every normal return of fn is dominated by a test containing `<x> not in self.valid` whose
-    true-branch raises - in fn itself or in the self-helper every return delegates to"""
-    flow = Flow(fn)
-    cfg = flow.cfg
-    guards = []
-    for n in cfg.nodes:
-        if n.kind == "test":
-            t = norm(n.stmt.test)
-            has = any(isinstance(c, ast.Compare) and len(c.ops) == 1 and isinstance(c.ops[0], ast.NotIn) and text(c.comparators[0]) == "self.valid" for c in ast.walk(t))
-            if has and any(isinstance(s, ast.Raise) for s in n.stmt.body):
-                guards.append(n.id)
-    rets = flow.return_nodes()
-    if guards and rets and cfg.must_pass_through([r.id for r in rets], guards):
-        return True, "guarded in place"
-    if depth > 0 and rets:
-        for rn in rets:
-            v = rn.stmt.value
-            h = self_call_name(v) if isinstance(v, ast.Call) else None
-            if h is None:
-                return False, f"return {ast.unparse(v) if v else None} is not behind a `not in self.valid` raise"
-            hc, hf = _method(ci, h)
-            if hf is None:
-                return False, f"helper {h} not found"
-            ok, why = _membership_guarded(ci, hc, hf, depth - 1)
-            if not ok:
-                return False, why
-        return True, "guarded in helper"
-    return False, "no `not in self.valid` raise dominates the returns"
 
 
 def _conjuncts(test):
@@ -410,7 +377,9 @@ def t_r5(p: Project, rep: Report):
 
 
 def t_r6(p: Project, rep: Report):
-    rep.rule("T-R6", "Decimal: both readers (str and decimal.Decimal) quantize to self.scale on every path when a scale is set; the writer refuses values whose quantum differs from self.scale")
+    rep.rule("T-R6", "Decimal: on every returning path of both readers (str and decimal.Decimal) either no scale is set or the returned value comes out of .quantize(self.scale); every returning path of the writer implies `scale is None or value.same_quantum(scale)`")
+    from . import paths as PT
+
     scal, _ = scalar_types(p)
     ci = scal["Decimal"]
     conv, unc = D.family(ci, "convert"), D.family(ci, "unconvert")
@@ -418,56 +387,42 @@ def t_r6(p: Project, rep: Report):
         h = conv.get(key)
         if h is None:
             continue
-        flow = Flow(h.fn)
-        # every path to a return passes an `if self.scale is not None:` test whose body re-binds the returned name through .quantize(self.scale)
-        ok, why = False, "no `if self.scale is not None: x = x.quantize(self.scale)` on the way to the return"
-        for n in flow.cfg.nodes:
-            if n.kind == "test" and text(norm(n.stmt.test)) == "self.scale is not None":
-                q = [s for s in n.stmt.body if isinstance(s, ast.Assign) and isinstance(s.value, ast.Call) and isinstance(s.value.func, ast.Attribute) and s.value.func.attr == "quantize" and s.value.args and text(s.value.args[0]) == "self.scale"]
-                rets = flow.return_nodes()
-                if q and rets and flow.cfg.must_pass_through([r.id for r in rets], [n.id]):
-                    tgt = q[0].targets[0]
-                    if all(isinstance(r.stmt.value, ast.Name) and isinstance(tgt, ast.Name) and r.stmt.value.id == tgt.id for r in rets):
-                        ok, why = True, ""
-        rep.check("T-R6", f"Decimal.convert[{key}]:quantizes", ok, why, tloc(p, h.fn))
+        rps, _ = h.return_paths()
+        ok, why = bool(rps), "never returns"
+        for pth, rtxt, sc in rps:
+            if sc.get("self.scale is None") is True:
+                continue
+            if ".quantize(self.scale)" not in rtxt:
+                ok, why = False, f"with a scale set a path returns {rtxt[:70]}, which is not quantized to the declared number of places"
+        rep.check("T-R6", f"Decimal.convert[{key}]:quantizes", ok, why if not ok else "", tloc(p, h.fn))
     h = unc.get("decimal.Decimal")
     if h is not None:
-        flow = Flow(h.fn)
-        guards = []
-        for n in flow.cfg.nodes:
-            if n.kind == "test" and any(isinstance(s, ast.Raise) for s in n.stmt.body):
-                t = text(norm(n.stmt.test))
-                if "same_quantum(self.scale)" in t and "self.scale is not None" in t:
-                    guards.append(n.id)
-        rets = flow.return_nodes()
-        ok = bool(guards) and bool(rets) and flow.cfg.must_pass_through([r.id for r in rets], guards)
+        rps, _ = h.return_paths()
+        vp = h.value_param()
+        goal = PT.any_of(PT.atom("self.scale is None"), PT.atom(f"bool({vp}.same_quantum(self.scale))"))
+        ok = bool(rps) and all(PT.implies(pth.conds, goal) is not False for pth, _r, _s in rps)
+        known = any(f"bool({vp}.same_quantum(self.scale))" in c.atoms() for pth, _r, _s in rps for c, _w in pth.conds)
+        if not known and ok is False:
+            pass
         rep.check("T-R6", "Decimal.unconvert[decimal.Decimal]:same-quantum", ok, "the writer does not refuse values whose exponent differs from the declared scale" if not ok else "", tloc(p, h.fn))
 
 
 def t_r7(p: Project, rep: Report):
-    rep.rule("T-R7", "the String reader checks the length limit on the DECODED text: the argument of enforce_length derives from the entity decoder's result, and that checked value is what is returned (checking the escaped wire text rejects valid values at the limit that contain & < >)")
+    rep.rule("T-R7", "the String reader checks the length limit on the DECODED text: on every returning path (other than the empty text) the returned value is enforce_length(<output of the entity decoder>) - checking the escaped wire text rejects valid values at the limit that contain & < >")
     scal, _ = scalar_types(p)
     ci = scal["String"]
     h = D.family(ci, "convert").get("str")
     if h is None:
         raise AnalysisError("String str reader not found")
-    flow = Flow(h.fn)
-    from .dataflow import resolve_values
-
-    calls = [(n, c) for n in flow.cfg.nodes for c in n.calls() if self_call_name(c) == "enforce_length"]
-    if not calls:
-        rep.check("T-R7", "String.convert[str]:length-on-decoded-text", False, "the reader never checks the length", tloc(p, h.fn))
-        return
-    for n, c in calls:
-        vals = [text(v) for v in resolve_values(c.args[0], n, flow.reach)] if c.args else []
-        # at least one reaching definition of the checked value is the decoder's output (a library unescape call
-        # or a hand-written .replace() chain); the seed "check first, decode later" leaves only the raw parameter
-        ok = bool(vals) and any(("unescape(" in v or ".replace(" in v) for v in vals)
-        rep.check("T-R7", "String.convert[str]:length-on-decoded-text", ok, f"enforce_length is applied to {vals}: the limit is tested before entities are decoded, so a valid value such as 'AT&T' at the limit ('AT&amp;T' on the wire) is rejected" if not ok else "", tloc(p, c))
-    for rn in flow.return_nodes():
-        v = rn.stmt.value
-        if v is not None and self_call_name(v) == "enforce_required":
+    rps, _ = h.return_paths()
+    for i, (pth, rtxt, sc) in enumerate(rps):
+        if rtxt == "self.enforce_required(None)":
             continue
-        vals = [text(x) for x in resolve_values(v, rn, flow.reach)] if v is not None else []
-        ok = bool(vals) and all("enforce_length(" in x for x in vals)
-        rep.check("T-R7", "String.convert[str]:returns-checked-decoded-text", ok, f"returns {vals}" if not ok else "", tloc(p, rn.stmt))
+        m = re.search(r"self\.enforce_length\((.*)\)", rtxt)
+        if m is None:
+            ok, why = False, f"a path returns {rtxt[:80]}: the (decoded) text is not what enforce_length checked"
+        else:
+            arg = m.group(1)
+            ok = "unescape(" in arg or ".replace(" in arg
+            why = f"enforce_length is applied to {arg[:60]}: the limit is tested before entities are decoded, so a valid value such as 'AT&T' at the limit ('AT&amp;T' on the wire) is rejected"
+        rep.check("T-R7", f"String.convert[str]:length-on-decoded-text#{i}", ok, why if not ok else "", tloc(p, h.fn))
